@@ -40,6 +40,25 @@ TECH_ADD = {
  "C20": "; in-use and first-use monitors; 7 configurations", "C02": "; 5-7 configurations",
 }
 
+ADD6 = {
+ "C01": " Sixth round: every decided case also goes through the batch verifier (plain and expanded adds) as a fourth entry point, for every variant with a context or a pre-hash and one pure case in four.",
+ "C02": " Sixth round: batches holding entries with different kinds of fault at once (refused at Add: truncated/overlong signature, S >= L, undecodable or wrong-length key; well-formed but invalid: flipped scalar bit, other message, other signer's key; honest) in every order of four, on the plain, non-expanding and expanded add paths; every bit against single verification.",
+ "C05": " Sixth round: operand pairs solved so that the hidden intermediates of a multiplication (a*b*R^j mod L for the Montgomery radix of either backend, j = -2..3) land on L-e, 2^252+-e, small values and PRNG points of [2^252, L).",
+ "C08": " Sixth round: the several secret scalars of one call stand in a secret relation (unrelated, all equal, neighbours equal, second = -first, first = last), selected branch-free from a hash of the secret.",
+ "C09": " Sixth round: one entry added repeatedly to one batch under all 32 option sets in a PRNG order and its reverse (plain, non-expanding, expanded paths, recycled key buffer): nothing decided for one entry may carry over to the next because the key bytes are equal.",
+ "C10": " Sixth round: after the read-only calls (predicates, encoding, comparison, conversion) on a point in any projective scaling the same object is used as an operand and its four coordinates checked for coherence.",
+ "C11": " Sixth round: the scalars of one multiscalar call share a shape (all below 2^128 / 2^127 / 2^64 / 2^129 / 2^136, multiples of 2^128, all equal) at term counts over every window switch (to 805 terms).",
+ "C12": " Sixth round: secret keys given as raw scalars (0 - the identity public key -, 1, L-1, 8, powers of two) through the decoder, with key/pair round trips; for those the reference decides the transcript mutations.",
+ "C13": " Sixth round: failed Finalize attempts (reader failing at once, after 16 and after 31 bytes) on the same builder before the successful one, in every other program.",
+ "C14": " Sixth round: the pipeline after message expansion (hash_to_field x2, Elligator 2, addition, cofactor clearing) driven through an in-package observer on chosen uniform bytes: all pairs from {exceptional and special field elements in several representatives (u, u+p, u+kp), extremes, PRNG}.",
+ "C15": " Sixth round: public keys with a torsion component (valid under RFC 9381 5.4.5) with proofs ground until c*T = O (must verify, with the reference output) and the first nonce for which it is not (must fail).",
+ "C16": " Sixth round: related operands - C chosen as A, the same object as A, -A, 2A, B, -B, O, A+B, A+T and b solved for true and false equations.",
+ "C17": " Sixth round: scalar objects whose state immediately before receiving the value came from the small-value setters (SetUint64, One, Zero, copies of such objects).",
+ "C18": " Sixth round: a herd phase - all goroutines released together make the same call with the same key (valid, undecodable, small-order, non-canonical) on a shared caching verifier that does not hold it, panics recovered and compared with the sequential result.",
+ "C19": " Sixth round: every 32-byte field of every decoder's valid example replaced by each of ~120 structured strings (field/scalar/torsion specials with bit 255 clear and set); EdwardsPoint.SetMontgomery as an entry with a reference decoder.",
+ "C20": " Sixth round: a phase driving every constant-consulting routine through its mathematically exceptional inputs (Elligator exceptional values incl. through the XOF suites with a constant expander, u = -1, identity/small-order operands and keys, zero inverses), the shared field constants compared after each operation and the whole enumeration repeated afterwards.",
+}
+
 CLAIMED = {
  # id: (technique, level text, level note, design_ref)
  "C01": ("reference-model monitor (big-integer RFC 8032 predicate + crypto/ed25519) shadowing every verification call over adversarial input families, 4 backends",
@@ -113,7 +132,7 @@ def main():
         i = p['id']
         if i in CLAIMED:
             tech, text, note, ref = CLAIMED[i]
-            text = text + ADDENDA.get(i, "")
+            text = text + ADDENDA.get(i, "") + ADD6.get(i, "")
             tech = tech + TECH_ADD.get(i, "")
             checks.append({
                 "property_id": i,
